@@ -144,6 +144,21 @@ Definition C18_oracle_ok (c : Rdr_case) : bool :=
 Definition C18_known (c : Rdr_case) : N := 0%N.
 Definition C18_model_ok := Rdr_model_ok.
 
+(* The oracle the C18 check applies (prefix C18s): C18_oracle_ok above (whose validity on
+   the model is a theorem, C18_oracle_holds_on_model) PLUS the bound of the property text
+   counted over ALL samples of an instance.  The code bounds only samples of kind Alive
+   (KEEP_LAST counts and evicts Alive samples only), so not-alive samples accumulate:
+   class 1 = recorded finding C18-notalive-not-bounded. *)
+Definition total_bound (c : Rdr_case) : bool :=
+  match q_depth (rc_q c) with
+  | Some d => forallb (fun h => count (of_inst h) (rc_fs c) <=? d) (final_insts c)
+  | None => true
+  end.
+Definition C18s_oracle_ok (c : Rdr_case) : bool := C18_oracle_ok c && total_bound c.
+Definition C18s_known (c : Rdr_case) : N :=
+  if C18_oracle_ok c && negb (total_bound c) && negb (all_adds_alive c) then 1%N else 0%N.
+Definition C18s_model_ok := Rdr_model_ok.
+
 (* ---------- C19: resource limits ---------- *)
 Definition rejected_data (c : Rdr_case) : list Z :=
   flat_map (fun oe => match oe with
